@@ -145,6 +145,7 @@ var checks = []Check{
 		Property: "C01",
 		Harnesses: []Harness{
 			{Dir: ".", Func: "H_C01_call", Quick: P{"maxdocs": 2, "tags": TNull | TInt32 | TString | TArray, "fixedclock": 1}, Thorough: P{"maxdocs": 3, "tags": TNull | TInt32 | TString | TArray, "fixedclock": 1}},
+			{Dir: ".", Func: "H_C01_multi", Quick: P{"call": 0, "uniqa": 1, "maxdocs": 1, "tags": TNull | TInt32, "fixedclock": 1}, Thorough: P{"call": 0, "uniqa": 1, "maxdocs": 2, "tags": TNull | TInt32 | TArray, "fixedclock": 1}, Note: "InsertMany under a unique secondary index, then an insert that reuses the _id or key of a rejected item"},
 			{Dir: ".", Func: "H_C01_multi", Quick: P{"maxdocs": 2, "fixedclock": 1}, Thorough: P{"maxdocs": 3, "fixedclock": 1}, Note: "InsertMany (ordered/unordered, duplicates), FindOneAndDelete/Replace, BulkWrite, index management through IndexView, failed insert + upsert + UpdateMany"},
 			lemClone,
 		},
@@ -187,11 +188,13 @@ var checks = []Check{
 			{Dir: ".", Func: "H_C16_protocol", Quick: P{"actors": 2, "preempt": 1, "partners": 1, "fixedclock": 1}, Thorough: P{"actors": 2, "preempt": 1, "partners": 2, "fixedclock": 1}, Conc: true, ModelOnly: true},
 			{Dir: ".", Func: "H_C16_protocol", Thorough: P{"actors": 2, "preempt": 2, "partners": 1, "fixedclock": 1}, Conc: true, ModelOnly: true, Note: "pre-emption bound 2 against a plain writer"},
 			{Dir: ".", Func: "H_C05_engine", Quick: P{"fixedclock": 1}, Thorough: P{}, Note: "a failing store: error reported, state unchanged, slot released, later commits work"},
+			{Dir: ".", Func: "H_C16_shutdown", Quick: P{"preempt": 2, "fixedclock": 1}, Thorough: P{"preempt": 3, "fixedclock": 1}, Conc: true, ModelOnly: true, Note: "Close while a Begin (background, cancellable or nil context) is blocked behind an active writer: released with the closed error, not by the token timeout"},
 		},
 		Assumptions: schedAssumptions,
 		Bounds: []string{"2 actors, each one of: plain write; session transaction ended by commit/abort/end-session; raw Begin + Commit with a failing store; write with a context cancelled concurrently; write transaction whose callback panics; callback returning an error; engine shutdown. Quick: every kind against a plain writer, pre-emption bound 1; thorough: every kind against a plain writer and against shutdown with bound 1, and against a plain writer with bound 2; a kind-7 actor uses one session from two goroutines (start vs end)",
 			"after all actors finished a probe write must succeed without waiting (or return the closed error after shutdown); any deadlock, escaped panic (semaphore over-release) or blocked shutdown on any schedule is a violation",
-			"outside: 3-4 actors, wall-clock promptness, goroutine leaks inside tomb/context"},
+			"shutdown harness: one holder of the writer slot, one blocked Begin, one Close, every interleaving within the pre-emption bound; promptness is modelled as: no one-shot timeout had to expire (timers fire only when every goroutine is blocked)",
+			"outside: 3-4 arbitrary actors, wall-clock latency, goroutine leaks inside tomb/context"},
 	},
 	{
 		Property: "C04",
@@ -209,6 +212,7 @@ var checks = []Check{
 		Harnesses: []Harness{
 			{Dir: ".", Func: "H_C09_seq", Quick: P{"maxevents": 3, "fixedclock": 1}, Thorough: P{"maxevents": 4, "fixedclock": 1}},
 			{Dir: ".", Func: "H_C09_lost", Quick: P{"fixedclock": 1}, Thorough: P{"fixedclock": 1}},
+			{Dir: ".", Func: "H_C09_trim", Quick: P{"maxevents": 2, "fixedclock": 1}, Thorough: P{"maxevents": 3, "fixedclock": 1}, Note: "retention trims a prefix while a stream is positioned anywhere in the log"},
 			{Dir: ".", Func: "H_C09_conc", Quick: P{"maxwrites": 1, "preempt": 2, "fixedclock": 1}, Thorough: P{"maxwrites": 2, "preempt": 2, "fixedclock": 1}, Conc: true, ModelOnly: true},
 		},
 		Assumptions: schedAssumptions,
@@ -271,11 +275,12 @@ var checks = []Check{
 		Property: "C19",
 		Harnesses: []Harness{
 			{Dir: ".", Func: "H_C19_expire", Quick: P{"maxdocs": 2, "fixedclock": 1}, Thorough: P{"maxdocs": 2, "fixedclock": 1}, ClockModel: true, Note: "the clock stands still at one arbitrary instant"},
+			{Dir: ".", Func: "H_C19_expire", Quick: P{"maxdocs": 1, "two": 1, "fixedclock": 1}, Thorough: P{"maxdocs": 2, "two": 1, "fixedclock": 1}, ClockModel: true, Note: "two TTL indexes (t and u) with independent intervals on one collection"},
 			{Dir: ".", Func: "H_C19_expire", Thorough: P{"maxdocs": 1}, ClockModel: true, Note: "arbitrary non-decreasing clock (second roll-over between the writes and the pass)"},
 			lemClone,
 		},
 		Assumptions: append([]string{"clock model: arbitrary non-decreasing instants; the pass is bracketed by two clock readings t0 <= now <= t1: documents older than t0-expiry must go, documents not older than t1-expiry must stay, in between either outcome is accepted"}, commonAssumptions...),
-		Bounds:      []string{"one collection with 0-1 TTL index on t (expiry 1ns as mapped from expireAfterSeconds 0, 1s, 1h) next to an optional non-TTL index, <= maxdocs documents whose t is a date, int32, int64, string, null, an array (<=2) of dates/int32, or missing; a second collection without TTL index; millisecond granularity"},
+		Bounds:      []string{"one collection with 0-1 TTL index on t (expiry 1ns as mapped from expireAfterSeconds 0, 1s, 1h), optionally a second TTL index on u (1s or 1h; u a date or int32), next to an optional non-TTL index, <= maxdocs documents whose t is a date, int32, int64, string, null, an array (<=2) of dates/int32, or missing; a second collection without TTL index; millisecond granularity"},
 	},
 	{
 		Property: "C06",
